@@ -447,6 +447,10 @@ class Calls(Exec):
             return
         if mexpr.endswith('{*}'):
             v = self.ev1(self.parse_spec(mexpr[:-3]), s)
+            if isinstance(v, (VMap, VAny)):
+                m = self.as_map(st, v, node)
+                self.map_write(st, m.t, fresh(z3.ArraySort(IntS, BoolS), 'dom'), fresh(z3.ArraySort(IntS, IntS), 'val'))
+                return
             for key, T in self.rec_fields(v.name).items():
                 self.rec_store(st, v, key, self.make_fresh(st, parse_type(T), key))
             return
@@ -593,6 +597,32 @@ class Calls(Exec):
             m = self.ev1(a[0], st)
             ch = self.ev1(a[1], st)
             return VBool(self.holds(st, m, ch, node))
+        if name == 'has':
+            m = self.as_map(st, self.ev1(a[0], st), node)
+            return VBool(self.map_has(st, m, self.ev1(a[1], st)))
+        if name == 'at':
+            m = self.as_map(st, self.ev1(a[0], st), node)
+            return self.map_at(st, m, self.ev1(a[1], st))
+        if name == 'mget':
+            # the mapping stored under key k of m, or the empty mapping when m has no such key
+            m = self.as_map(st, self.ev1(a[0], st), node)
+            k = self.ev1(a[1], st)
+            has = self.map_has(st, m, k)
+            return VMap(ITE(has, self.map_at(st, m, k).t, self.EMPTY_MAP))
+        if name == 'same':
+            x = self.ev1(a[0], st)
+            y = self.ev1(a[1], st)
+            return VBool(x.t == y.t)
+        if name == 'forall_keys':
+            lam = a[0]
+            q = fresh_int('q_key')
+            s = st.fork()
+            s.frame.loc[lam.args.args[0].arg] = VKey(q)
+            body = self.truthy(s, self.ev1(lam.body, s))
+            extra = s.pc[len(st.pc):]
+            if getattr(st, 'spec_assume', False):
+                return VBool(z3.ForAll([q], AND(body, *extra)))
+            return VBool(z3.ForAll([q], IMPL(AND(*extra), body)))
         if name == 'numshape':
             sv = self.ev1(a[0], st)
             lo = self.ev1(a[1], st).t
@@ -628,14 +658,14 @@ class Calls(Exec):
             if st.old is None:
                 raise Unsupported('fresh() without entry snapshot', node)
             return VBool(OR(*[AND(c, x.t >= st.old.alloc) for c, x in (v.alts if isinstance(v, VU) else [(TRUE, v)])
-                              if isinstance(x, (VRef, VList, VRec))]))
+                              if isinstance(x, (VRef, VList, VRec, VMap))]))
         if name == 'owned':
             v = self.ev1(a[0], st)
             bound = st.owner_bound if st.owner_bound is not None else (st.old.alloc if st.old is not None else None)
             if bound is None:
                 raise Unsupported('owned() outside a function with an entry snapshot', node)
             return VBool(AND(*[IMPL(c, x.t >= bound) for c, x in (v.alts if isinstance(v, VU) else [(TRUE, v)])
-                               if isinstance(x, (VRef, VList, VRec))]))
+                               if isinstance(x, (VRef, VList, VRec, VMap))]))
         if name == 'allocated':
             v = self.ev1(a[0], st)
             return VBool(AND(v.t >= 1, v.t < st.alloc))
@@ -1034,6 +1064,25 @@ class Calls(Exec):
 
     # ------------------------------------------------------------ dict methods
     def call_dictmethod(self, st, d, name, args, kwargs, node):
+        if isinstance(d, (VMap, VAny)):
+            m = self.as_map(st, d, node)
+            if name == 'get':
+                k = args[0]
+                dflt = args[1] if len(args) > 1 else NONE
+                has = simp(self.map_has(st, m, k))
+                return [(st, mk_union([(has, self.map_at(st, m, k)), (NOT(has), dflt)]))]
+            if name == 'update':
+                def upd(s, src):
+                    sm = self.as_map(s, src, node)
+                    if sm is None:
+                        if isinstance(src, VNone):
+                            self.prove(s, FALSE, 'aorte', node, "TypeError: 'NoneType' object is not iterable (dict.update)")
+                            raise PathDead()
+                        raise Unsupported('dict.update from %s' % src.kind, node)
+                    self.map_update(s, m, sm)
+                    return [(s, NONE)]
+                return self.umap(st, args[0], upd, node)
+            raise Unsupported('dict method %s on a map' % name, node)
         if isinstance(d, VConst) and isinstance(d.py, dict):
             if name == 'get':
                 k = args[0]
